@@ -130,24 +130,24 @@ MaxIdle == %(maxidle)d
 MaxHold == %(maxhold)d
 MonParams == %(monparams)s
 
-\* q: the identity layout's event queue (one event leaves it per tick); np = <<character presses, modifier presses, idle ticks>> so far
+\* q: the identity layout's event queue (one event leaves it per tick); np = <<character presses, modifier presses, idle ticks so far, character presses in the current hold>>
 \* (the environment: at most MaxEp character presses, MaxMod modifier presses and MaxIdle ticks with an empty queue in a history)
 VARIABLES z, q, phys, np, mon, hist
-Init == z = ZInit /\ q = <<>> /\ phys = {} /\ np = <<0, 0, 0>> /\ mon = Mon!MonInit(MonParams) /\ hist = <<>>
+Init == z = ZInit /\ q = <<>> /\ phys = {} /\ np = <<0, 0, 0, 0>> /\ mon = Mon!MonInit(MonParams) /\ hist = <<>>
 MonOk == mon.err = ""
 CanInput == MonOk /\ Len(q) < QMax
 \* a bound of 0 means "not bounded" (and the counter is not kept)
 Cnt(i, bound) == IF bound = 0 THEN 0 ELSE np[i] + 1
 Press(c) == /\ CanInput /\ c \notin phys
-            /\ (IF c \in CharKeys THEN (MaxEp = 0 \/ np[1] < MaxEp) /\ Cardinality(phys \cap CharKeys) < MaxHold
+            /\ (IF c \in CharKeys THEN (MaxEp = 0 \/ np[1] < MaxEp) /\ np[4] < MaxHold
                                    ELSE (MaxMod = 0 \/ np[2] < MaxMod))
             /\ q' = Append(q, <<"d", c>>) /\ phys' = phys \cup {c}
-            /\ np' = IF c \in CharKeys THEN <<Cnt(1, MaxEp), np[2], np[3]>> ELSE <<np[1], Cnt(2, MaxMod), np[3]>>
+            /\ np' = IF c \in CharKeys THEN <<Cnt(1, MaxEp), np[2], np[3], np[4] + 1>> ELSE <<np[1], Cnt(2, MaxMod), np[3], np[4]>>
             /\ mon' = Mon!MonIn(mon, [e |-> "d", c |-> c, out |-> <<>>])
             /\ hist' = Append(hist, <<"d", c>>) /\ UNCHANGED z
 Release(c) == /\ CanInput /\ c \in phys
               /\ q' = Append(q, <<"u", c>>) /\ phys' = phys \ {c}
-              /\ np' = np
+              /\ np' = IF phys' \cap CharKeys = {} THEN <<np[1], np[2], np[3], 0>> ELSE np
               /\ mon' = Mon!MonIn(mon, [e |-> "u", c |-> c, out |-> <<>>])
               /\ hist' = Append(hist, <<"u", c>>) /\ UNCHANGED z
 \* src: kanata/mod.rs:846-863 tick_states: handle_keystate_changes (one queued event) then zippy_tick
@@ -157,7 +157,7 @@ StepTick == LET r == IF q = <<>> THEN [z |-> z, out |-> <<>>]
                 q1 == IF q = <<>> THEN q ELSE Tail(q)
             IN [z |-> z1, q |-> q1, out |-> r.out, idle |-> q1 = <<>> /\ ZIsIdle(z1)]
 Tick == /\ MonOk /\ (q = <<>> => MaxIdle = 0 \/ np[3] < MaxIdle)
-        /\ np' = IF q = <<>> THEN <<np[1], np[2], Cnt(3, MaxIdle)>> ELSE np
+        /\ np' = IF q = <<>> THEN <<np[1], np[2], Cnt(3, MaxIdle), np[4]>> ELSE np
         /\ LET s == StepTick IN
            /\ z' = s.z /\ q' = s.q
            /\ mon' = Mon!MonTick(mon, s.out, s.idle, s.idle)
@@ -255,3 +255,114 @@ def check_instance(name, desc, wd, qmax=1, maxep=0, maxmod=0, maxidle=0, maxhold
             res["impl_panics"] = rr["panics"]
     res["wall_s"] = round(time.time() - t0, 1)
     return res
+
+
+# ---------------------------------------------------------------- binding C: histories recorded from the real code
+def chord_attempts(desc, rng, limit=None, d_gaps=None):
+    """The quantifier of the statement, spelled out as harness scripts: every entry of the dictionary (its antecedent
+    chords performed first), every permutation of its keys, gaps below the deadline, without / with a shift held,
+    followed by 1-2 further keys (pressed while the chord is still held, right after releasing it, or after a pause)."""
+    C = cfgdesc.code
+    D, W = desc["D"], desc["W"]
+    gaps = d_gaps or sorted({1, max(1, (D - 1) // 2), max(1, D - 1)})
+    keys = [C(k) for k in desc["keys"]]
+    shifts = [None] + [C(m) for m in desc["mods"] if m in ("lsft", "rsft")]
+    out = []
+
+    def chord(perm, gap, release=True):
+        s = []
+        for k in perm:
+            s += [["d", k], ["t", gap]]
+        if release:
+            for k in perm:
+                s += [["u", k], ["t", 1]]
+        return s
+
+    for ln in desc["lines"]:
+        chain = [[C(k) for k in ch] for ch in ln["chain"]]
+        for perm in itertools.permutations(chain[-1]):
+            for gap in gaps:
+                for sftk in shifts:
+                    pre = []
+                    for ch in chain[:-1]:
+                        p = list(ch)
+                        rng.shuffle(p)
+                        pre += chord(p, 1)
+                    head = pre + ([["d", sftk], ["t", 1]] if sftk else []) + chord(perm, gap, release=False)
+                    rel = []
+                    for k in perm:
+                        rel += [["u", k], ["t", 1]]
+                    usft = [["u", sftk], ["t", 1]] if sftk else []
+                    tails = [rel + usft]
+                    for k1 in keys:
+                        tap1 = [["d", k1], ["t", 1], ["u", k1], ["t", 1]]
+                        if k1 not in perm:
+                            # a further key while the chord is still held (extension / overlap / literal)
+                            tails.append([["d", k1], ["t", 1]] + rel + [["u", k1], ["t", 1]] + usft)
+                        tails.append(rel + tap1 + usft)                       # right after the release
+                        tails.append(rel + usft + [["t", W + 2]] + tap1)      # after the re-enable pause
+                        k2 = rng.choice(keys)
+                        if k2 != k1:
+                            tails.append(rel + usft + [["d", k1], ["t", 1], ["d", k2], ["t", 1], ["u", k1], ["t", 1],
+                                                       ["u", k2], ["t", 1]])
+                    for tl in tails:
+                        out.append(head + tl + [["t", W + D + 3]])
+    if limit and len(out) > limit:
+        out = rng.sample(out, limit)
+    return out
+
+
+def rand_typing(rng, desc, n_events):
+    """Physically consistent random typing with gaps around the deadline / the re-enable time."""
+    C = cfgdesc.code
+    D, W = desc["D"], desc["W"]
+    keys = [C(k) for k in desc["keys"]] * 3 + [C(k) for k in desc["mods"]]
+    gaps = [1, 1, 1, 1, 2, max(1, D - 1), D, D + 1, W, W + 1, W + D + 2]
+    s = rand_history(rng, keys, n_events, gaps, tail=W + D + 3)
+    return s
+
+
+LETTERS = "abcdehilnorst"
+
+
+def rand_dict(rng, tier):
+    """A random dictionary of <= 4 lines over {a, b, c, space}: overlapping chords, chords extending other chords,
+    follow-up chords, lower/upper-case outputs, outputs sharing prefixes."""
+    alphabet = ["a", "b", "c", "spc"]
+    n = rng.randint(2, 4)
+    lines, seen = [], set()
+    stems = ["".join(rng.choice(LETTERS) for _ in range(rng.randint(1, 3))) for _ in range(2)]
+    tries = 0
+    while len(lines) < n and tries < 50:
+        tries += 1
+        if lines and rng.random() < 0.35:
+            base = rng.choice(lines)["chain"]
+            if rng.random() < 0.5 and len(base[-1]) < 3:       # extension of an existing chord
+                extra = [k for k in alphabet if k not in base[-1]]
+                chain = base[:-1] + [sorted(base[-1] + [rng.choice(extra)])]
+            else:                                              # follow-up of an existing chord
+                chain = base + [sorted(rng.sample(alphabet, rng.randint(1, 2)))]
+        else:
+            chain = [sorted(rng.sample(alphabet, rng.randint(2, 3)))]
+        if len(chain) > 3:
+            continue
+        key = tuple(tuple(c) for c in chain)
+        if key in seen:
+            continue
+        seen.add(key)
+        word = rng.choice(stems) + "".join(rng.choice(LETTERS) for _ in range(rng.randint(0, 3))) \
+            if rng.random() < 0.6 else "".join(rng.choice(LETTERS) for _ in range(rng.randint(1, 5)))
+        r = rng.random()
+        if r < 0.25:
+            word = word.capitalize()
+        elif r < 0.35:
+            word = word.upper()
+        lines.append({"chain": chain, "out": word})
+    # every antecedent of a follow-up must itself be a line (the parser requires it only implicitly: an antecedent
+    # without its own line has an empty output)
+    D = rng.choice([2, 3, 5, 20])
+    W = rng.choice([1, 2, 3, 15])
+    ss = rng.choice(["none", "none", "add-space-only", "full"])
+    keys = ["a", "b", "c", "spc"] + (["comm"] if ss == "full" else [])
+    return {"lines": lines, "D": D, "W": W, "ss": ss, "punct": None, "keys": keys,
+            "mods": rng.choice([["lsft"], ["lsft", "rsft"], ["lsft", "ralt"]])}
